@@ -396,6 +396,184 @@ impl Scenario for ConsumerLife {
 }
 
 // -----------------------------------------------------------------------------------------
+// C11: several consumers, a cancel in flight, and the server closing the channel / connection
+
+pub struct ConsumerRace;
+
+impl Scenario for ConsumerRace {
+    fn name(&self) -> &'static str {
+        "consumer-race"
+    }
+    fn property(&self) -> &'static str {
+        "C11"
+    }
+    fn variants(&self, _tier: &str) -> Vec<Value> {
+        let mut v = Vec::new();
+        for close in ["channel", "connection"] {
+            for bound in [1usize, 16] {
+                v.push(json!({"close": close, "bound": bound}));
+            }
+        }
+        v
+    }
+    fn bound(&self, tier: &str, _p: &Value) -> usize {
+        if tier == "thorough" {
+            3
+        } else {
+            2
+        }
+    }
+    fn describe(&self) -> String {
+        "two consumers on channel 1 and one on channel 2 (mem_channel_bound 1 or 16); one thread cancels the first consumer while the server, at any point, closes channel 1 or the connection; one delivery per consumer pushed frame by frame. Oracle: every queue carries only deliveries of its own tag, then exactly one terminal message naming the true cause (ClientCancelled iff the CancelOk was handled before the server's close, else the server's close with its code and text), then disconnects; the cancel call and Connection::close report accordingly".into()
+    }
+    fn build(&self, p: &Value) -> Built {
+        let conn_close = p["close"] == "connection";
+        let bound = p["bound"].as_u64().unwrap() as usize;
+        let mut broker = StdBroker::new(Handshake::default());
+        // channel 1: Open = request 1, the two consumes = requests 2 and 3; channel 2: consume = 2
+        let l = chain(&mut broker, "d.a", vec![deliver(1, "ctag-1-2", 30), header(1, 0, false)], None, Some((1, 3)));
+        let _ = l;
+        chain(&mut broker, "d.b", vec![deliver(1, "ctag-1-3", 40), header(1, 1, true), body(1, &[4])], None, Some((1, 3)));
+        chain(&mut broker, "e", vec![deliver(2, "ctag-2-2", 50), header(2, 0, true)], None, Some((2, 2)));
+        // no delivery to a consumer / channel once the server has seen its cancel / close
+        broker.delivery_stoppers = vec![(1, 60, 30), (1, 20, 40), (0, 10, 50)];
+        for p in broker.pushes.iter_mut() {
+            if p.label.starts_with("e.") {
+                p.not_after_client_method = Some((2, 60, 30));
+            }
+        }
+        if conn_close {
+            broker.pushes.push(Push::new("close", vec![conn_close_frame(320, "going down")]).when_channel(1, 3));
+        } else {
+            broker.pushes.push(Push::new("close", vec![chan_close_frame(1, 406, "PRECONDITION_FAILED")]).when_channel(1, 3));
+        }
+        let mut cfg = EnvConfig::default();
+        cfg.time = false;
+        Built {
+            broker: Box::new(broker),
+            cfg,
+            root: Box::new(move |ctx: Ctx| {
+                let mut conn = match open(&ctx, ConnectionOptions::default().heartbeat(0), ConnectionTuning::default().mem_channel_bound(bound)) {
+                    Ok(c) => c,
+                    Err(e) => {
+                        ctx.log(format!("open -> Err({})", err_name(&e)));
+                        return;
+                    }
+                };
+                let ch1 = conn.open_channel(Some(1)).expect("ch1");
+                let ch2 = conn.open_channel(Some(2)).expect("ch2");
+                let a = ctx.spawn("a", move |ctx| {
+                    let c1 = ch1.basic_consume("q", ConsumerOptions::default());
+                    let c2 = ch1.basic_consume("q", ConsumerOptions::default());
+                    let (c1, c2) = match (c1, c2) {
+                        (Ok(a), Ok(b)) => (a, b),
+                        (a, b) => {
+                            ctx.log(format!("consume -> {} {}", res(&a), res(&b)));
+                            std::mem::forget((a, b));
+                            return;
+                        }
+                    };
+                    ctx.log(format!("tags {} {}", c1.consumer_tag(), c2.consumer_tag()));
+                    let r = c1.cancel();
+                    ctx.log(format!("cancel -> {:?}", r.map_err(|e| err_name(&e))));
+                    drain_consumer(&ctx, "consumer1", c1.receiver());
+                    drain_consumer(&ctx, "consumer2", c2.receiver());
+                    std::mem::forget((c1, c2));
+                    let r = ch1.close();
+                    ctx.log(format!("chclose -> {:?}", r.map_err(|e| err_name(&e))));
+                });
+                let b = ctx.spawn("b", move |ctx| {
+                    let c3 = match ch2.basic_consume("q", ConsumerOptions::default()) {
+                        Ok(c) => c,
+                        Err(e) => {
+                            ctx.log(format!("consume -> Err({})", err_name(&e)));
+                            return;
+                        }
+                    };
+                    if !conn_close {
+                        // the other channel is not affected: its consumer ends when it says so
+                        if let Ok(m) = ctx.recv("consumer3", c3.receiver()) {
+                            ctx.log(format!("consumer3 <- {}", consumer_msg_name(&m)));
+                        }
+                        let r = c3.cancel();
+                        ctx.log(format!("cancel -> {:?}", r.map_err(|e| err_name(&e))));
+                    }
+                    drain_consumer(&ctx, "consumer3", c3.receiver());
+                    std::mem::forget(c3);
+                    let r = ch2.close();
+                    ctx.log(format!("chclose -> {:?}", r.map_err(|e| err_name(&e))));
+                });
+                ctx.join(a);
+                ctx.join(b);
+                let r = conn.close();
+                ctx.log(format!("close -> {}", res(&r)));
+            }),
+        }
+    }
+    fn check(&self, p: &Value, o: &Outcome, _w: &World) -> Vec<(String, String)> {
+        let mut v = Vec::new();
+        let conn_close = p["close"] == "connection";
+        let a = o.logs.get("a").cloned().unwrap_or_default();
+        let b = o.logs.get("b").cloned().unwrap_or_default();
+        let main = o.logs.get("main").cloned().unwrap_or_default();
+        if a.iter().any(|l| l.starts_with("consume -> ")) || b.iter().any(|l| l.starts_with("consume -> ")) {
+            // the close came before the consumers existed: covered by the other scenarios
+            return v;
+        }
+        let srv_err = if conn_close { "ServerClosedConnection(320,going down)".to_string() } else { "ServerClosedChannel(1,406,PRECONDITION_FAILED)".to_string() };
+        let srv_terminal = if conn_close { format!("ServerClosedConnection[{}]", srv_err) } else { format!("ServerClosedChannel[{}]", srv_err) };
+        // which came first at the I/O thread: the CancelOk for consumer 1 or the server's close?
+        let pos_ok = o.io_events.iter().position(|e| matches!(e, IoEvent::Frame(AMQPFrame::Method(1, AMQPClass::Basic(basic::AMQPMethod::CancelOk(_))))));
+        let pos_close = o.io_events.iter().position(|e| match e {
+            IoEvent::Frame(AMQPFrame::Method(0, AMQPClass::Connection(pconnection::AMQPMethod::Close(_)))) => conn_close,
+            IoEvent::Frame(AMQPFrame::Method(1, AMQPClass::Channel(pchannel::AMQPMethod::Close(_)))) => !conn_close,
+            _ => false,
+        });
+        let cancelled_first = match (pos_ok, pos_close) {
+            (Some(k), Some(c)) => k < c,
+            (Some(_), None) => true,
+            _ => false,
+        };
+        let want = |who: &str| -> (u64, String) {
+            match who {
+                "consumer1" => (30, if cancelled_first { "ClientCancelled".to_string() } else { srv_terminal.clone() }),
+                "consumer2" => (40, srv_terminal.clone()),
+                _ => (50, if conn_close { srv_terminal.clone() } else { "ClientCancelled".to_string() }),
+            }
+        };
+        for (who, log) in [("consumer1", &a), ("consumer2", &a), ("consumer3", &b)] {
+            let msgs: Vec<String> = log.iter().filter_map(|l| l.strip_prefix(&format!("{} <- ", who)).map(|x| x.to_string())).collect();
+            let (tag, terminal) = want(who);
+            let n_deliv = msgs.iter().take_while(|m| m.starts_with("Delivery")).count();
+            if msgs[..n_deliv].iter().any(|m| !m.starts_with(&format!("Delivery(tag={},", tag))) || n_deliv > 1 {
+                v.push(("race:foreign-or-duplicate-delivery".into(), format!("{} received {:?}, only tag {} is addressed to it", who, msgs, tag)));
+            }
+            let rest = &msgs[n_deliv..];
+            if pos_close.is_none() && who == "consumer2" {
+                continue;
+            }
+            if rest.len() != 1 || rest[0] != terminal || !log.iter().any(|l| *l == format!("{} disconnected", who)) {
+                v.push((format!("race:terminal:{}", who), format!("{} saw {:?} expected deliveries then exactly [{}] then disconnect (CancelOk handled before the close: {})", who, msgs, terminal, cancelled_first)));
+            }
+        }
+        // the cancel call itself
+        if let Some(l) = a.iter().find(|l| l.starts_with("cancel -> ")) {
+            let want = if cancelled_first { "cancel -> Ok(())".to_string() } else { format!("cancel -> Err(\"{}\")", srv_err) };
+            if *l != want {
+                v.push(("race:cancel-result".into(), format!("{} expected {}", l, want)));
+            }
+        } else {
+            v.push(("race:cancel-result".into(), format!("the cancel call did not return: {:?}", a)));
+        }
+        let want_close = if conn_close && pos_close.is_some() { format!("close -> Err({})", srv_err) } else { "close -> Ok".to_string() };
+        if main.last() != Some(&want_close) {
+            v.push(("race:close".into(), format!("main log {:?} expected {}", main, want_close)));
+        }
+        v
+    }
+}
+
+// -----------------------------------------------------------------------------------------
 
 pub struct Listeners;
 
